@@ -15,11 +15,13 @@ h) Flusher::flush: SegmentIndexBuilder::add_segment_entry is dominated by succes
 i) shutdown: flush_all precedes shutdown_all; on_shutdown awaits wal.shutdown() before returning Ok.
 k) writer side of the same lockstep: the WAL rotates when entries_written reaches CONFIG.engine.fill_factor * event_per_zone, the same product that sizes the memtable (ShardContext::new) and that
    find_next_wal_id uses to decide roll-over at start-up; entries_written is only ever (re)initialised from the lines already in the newest log file (count_entries) or incremented by one per appended entry.
+l) restart lists every segment directory the writer can produce: SegmentId::dir_name pads to a *minimum* width, so the start-up scan (SegmentIdLoader::load) accepts a directory on an
+   all-digits test only and never on an exact-length comparison (segments of level >= 10 have longer names).
 j) every L0 id allocation site (next_for_level(0) feeding queue_for_flush) is control dependent on MemTable::is_full (segment-id / WAL-log-id lockstep).
 Not decided: crash points between steps, WAL replay vs published segment duplication, buffered WAL prefix semantics, fsync actually reaching disk.
 """
-FLOOR = 12
-REQUIRED = ["C01.a", "C01.b1", "C01.b2", "C01.c", "C01.d", "C01.e", "C01.f", "C01.g", "C01.h", "C01.i", "C01.j", "C01.k"]
+FLOOR = 13
+REQUIRED = ["C01.a", "C01.b1", "C01.b2", "C01.c", "C01.d", "C01.e", "C01.f", "C01.g", "C01.h", "C01.i", "C01.j", "C01.k", "C01.l"]
 ASSUMPTIONS = ["tokio mpsc mailbox is FIFO", "WalHandle::append completing means the entry was handed to the WAL writer task"]
 
 FIVE = ["timestamp", "context_id", "event_type", "payload", "event_id"]
@@ -372,6 +374,33 @@ def run(ctx):
         inst.sites.append(sp(b, sh.bb))
         return bad
     ctx.run("C01.i", "K1 DOM", "frontend::start_all / worker::on_shutdown", "graceful shutdown flushes before stopping shards and drains the WAL", i_)
+
+    # ------------------------------------------------------------------ l
+    def l_(inst):
+        b = F.fn("SegmentIdLoader::load")
+        fam = [b] + [F.fn_exact(kk) for kk in F.find("^" + re.escape(b.key) + r"::\{closure")]
+        push = [p for p in b.find_calls(r"Vec::push$")]
+        if not push:
+            raise AnchorMissing("ids.push in SegmentIdLoader::load")
+        bad = []
+        digits = any(bb_.find_calls(r"char::(methods::)?is_ascii_digit$|is_ascii_digit$|is_numeric$") for bb_ in fam)
+        if not digits:
+            bad.append(("no-digits-test", "SegmentIdLoader::load no longer recognises segment directories by an all-digits test", None))
+        for bb_ in fam:
+            lens = {c.dest[0] for c in bb_.calls if not c.cleanup and re.search(r"str::len$|String::len$|OsStr::len$", c.nname) and c.dest}
+            for blk in bb_.live_blocks():
+                for st in bb_.blocks[blk]["s"]:
+                    v = st.get("v")
+                    if v and v["r"] == "bin" and v["op"] in ("Eq", "Ne", "Lt", "Le", "Gt", "Ge"):
+                        la = bb_._origin_locals(v["a"]) & lens
+                        lb = bb_._origin_locals(v["b"]) & lens
+                        if la or lb:
+                            bad.append(("name-length-guard:%s" % v["op"], "SegmentIdLoader::load filters directory names by length (%s): SegmentId::dir_name only pads to a minimum width, deeper-level segments have longer names and would vanish after restart" % v["op"], None))
+        dn = F.fn("SegmentId::dir_name")
+        inst.sites = [sp(b, push[0].bb), "digits test: %s" % digits]
+        # after listing, the list is sorted and handed to the allocator / live list
+        return bad
+    ctx.run("C01.l", "K11 SIB", "SegmentIdLoader::load vs SegmentId::dir_name", "every segment directory the writer can create is listed again after restart", l_)
 
     # ------------------------------------------------------------------ k
     def k(inst):
